@@ -72,6 +72,10 @@ func init() {
 		}
 		return mkStr(filepath.Join(parts...))
 	}
+	intrinsics["(*fmt.wrapError).Unwrap"] = func(in *Interp, fn *ssa.Function, a []Value) Value { return (*a[0].(*Value)).(Struct)[1] }
+	intrinsics["(*fmt.wrapError).Error"] = func(in *Interp, fn *ssa.Function, a []Value) Value { return (*a[0].(*Value)).(Struct)[0] }
+	intrinsics["(*fmt.wrapErrors).Unwrap"] = func(in *Interp, fn *ssa.Function, a []Value) Value { return (*a[0].(*Value)).(Struct)[1] }
+	intrinsics["(*fmt.wrapErrors).Error"] = func(in *Interp, fn *ssa.Function, a []Value) Value { return (*a[0].(*Value)).(Struct)[0] }
 	registerJSON()
 }
 
